@@ -15,8 +15,9 @@ The backend only accepts `Entry<EntrySealed, _>`.  Decided:
      validate -> seal after the pre-write plugins and before the backend write; every function that calls a
      backend write has sealed before it (or receives the ModifyPartial token).
 Not decided: the schema check's own logic (Entry<EntryValid>::validate / SchemaTransaction), schema edits that
-narrow a definition already in use (excluded by the property).  K10 compile-fail witnesses are not built (the
-typestate facts they would show are the K1 facts above plus rustc's own type check of the workspace).
+narrow a definition already in use (excluded by the property).  K10 compile-fail witnesses are not built; the
+facts they would show are read from the compiler's signatures instead (K1-typestate: backend writers take only
+Entry<EntrySealed,_>, `seal` exists only on Entry<EntryValid,_>); field privacy of the markers is not in the facts.
 """
 import re
 
@@ -310,11 +311,39 @@ def check_pipelines(ctx):
                       file=d["file"], line=s.node.get("line"))
 
 
+def check_typestate_facts(ctx):
+    """What the K10 compile-fail witnesses would show, read from the compiler's own signatures instead:
+    the backend entry writers accept only Entry<EntrySealed,_>, and `seal` exists only on Entry<EntryValid,_>."""
+    F = ctx.facts
+    rule = "K1-typestate"
+    for m in ("create", "modify", "refresh", "incremental_apply"):
+        d = ctx.fn(LIB, BE_WRITE_PREFIX + m)
+        markers = set()
+        for p in d["params"]:
+            markers |= set(re.findall(r"entry::Entry<([\w:]+),", p["ty"]))
+        ctx.check(bool(markers) and markers == {"entry::EntrySealed"}, rule, d["fn"], "accepts-only-sealed",
+                  f"be_txn.{m} takes only Entry<EntrySealed,_> ({len(d['params'])} params)",
+                  f"BackendWriteTransaction::{m} accepts entries with marker(s) {sorted(markers)}: the backend would store entries that were not validated and sealed",
+                  file=d["file"], line=d["line"])
+    seals = F.find_fns(LIB, r"^kanidmd_lib::entry::.*::seal$")
+    ctx.check(seals == [SEAL], rule, SEAL, "seal-only-on-valid", "seal is defined only for Entry<EntryValid, STATE>",
+              f"functions named seal in the entry module: {seals} — an entry that is not EntryValid could be sealed")
+    d = ctx.fn(LIB, SEAL)
+    ctx.check(d["params"] and d["params"][0]["ty"].startswith("entry::Entry<entry::EntryValid,") and "entry::Entry<entry::EntrySealed," in d["ret"],
+              rule, SEAL, "seal-signature", "seal: Entry<EntryValid,S> -> Entry<EntrySealed,S>", "seal's signature changed", file=d["file"], line=d["line"])
+    for nm in V_FNS[:2]:
+        d = ctx.fn(LIB, nm)
+        ctx.check("Result<entry::Entry<entry::EntryValid," in d["ret"].replace("core::result::", ""), rule, nm, "validate-is-fallible",
+                  "validate returns Result<Entry<EntryValid,_>, SchemaError>", f"{short(nm, 2)} no longer returns a Result: a failed schema check cannot be reported",
+                  file=d["file"], line=d["line"])
+
+
 def run(ctx):
     ctx.explanation = ("Typestate audit: (K1a) only allow-listed bodies construct EntryValid/EntrySealed; (K1b) relabelling keeps attrs; (K1c) in-place "
                        "writes on validated entries are allow-listed; (K6) validate's Ok is the schema check's Ok, validate_repl turns failures into recycled "
                        "conflicts; (K2) validate -> seal sits between pre-plugins and the backend write in all write pipelines and before every backend "
                        "write call. With rustc's own check that Backend writes take Entry<EntrySealed,_>, every stored entry passed the schema check.")
+    check_typestate_facts(ctx)
     check_construct(ctx)
     check_relabel(ctx)
     check_mutate(ctx)
